@@ -37,7 +37,7 @@ def pick(r, l):
 # ---------------------------------------------------------------- generics
 def gen_generics(ctx):
     r = ctx.rng
-    c = r.randrange(8)
+    c = r.randrange(10)
     g = Generics()
     if c <= 2:
         pass
@@ -55,10 +55,15 @@ def gen_generics(ctx):
         g.params = [dict(kind='life', name='a'), dict(kind='life', name='b', bounds="'a"),
                     dict(kind='type', name='H'), dict(kind='type', name='V', bounds='::core::fmt::Debug + Sized')]
         g.trailing = r.random() < 0.5
-    else:
+    elif c == 7:
         g.params = [dict(kind='const', name='N', ty='usize'), dict(kind='type', name='T')]
         g.where = ['[T; N]: Sized']
         g.trailing = r.random() < 0.3
+    elif c == 8:
+        # parameters named like the identifiers the templates pick (hasher parameter `__H`, then `__H_`, ...)
+        g.params = [dict(kind='type', name='__H'), dict(kind='const', name='__H_', ty='usize')]
+    else:
+        g.params = [dict(kind='const', name='__H', ty='usize'), dict(kind='type', name='__H_'), dict(kind='type', name='T')]
     ctx.generics = g
     ctx.type_params = [p['name'] for p in g.params if p['kind'] == 'type']
     ctx.lifetimes = [p['name'] for p in g.params if p['kind'] == 'life']
